@@ -7,6 +7,7 @@ import (
 	"go/token"
 	"go/types"
 	"golang.org/x/tools/go/ssa"
+	"sort"
 	"strconv"
 	"strings"
 	"verif/checker/report"
@@ -726,6 +727,56 @@ func (c *Ctx) lookAheadShape(sc *report.RuleScope, pk *pkgT, look *types.Func) {
 		}
 		return true
 	})
+	// (a') any other early "not a directive" answer must be a first-byte filter that admits
+	// the first byte of every spelled keyword
+	firstBytes := map[byte]string{}
+	for kind, nm := range names {
+		if spelled[kind] && nm != "" {
+			firstBytes[nm[0]] = nm
+		}
+	}
+	nFilters := 0
+	inspectNoLit(fd.Body, func(n ast.Node) bool {
+		switch n.(type) {
+		case *ast.ForStmt, *ast.RangeStmt:
+			return false // the table loop is judged below
+		}
+		ifs, ok := n.(*ast.IfStmt)
+		if !ok || len(ifs.Body.List) == 0 {
+			return true
+		}
+		ret, ok := ifs.Body.List[len(ifs.Body.List)-1].(*ast.ReturnStmt)
+		if !ok || len(ret.Results) != 1 {
+			return true
+		}
+		if tv, has := info.Types[ret.Results[0]]; !has || tv.Value == nil || tv.Value.String() != "false" {
+			return true
+		}
+		if _, isLenGuard := maxLenWhenTrue(info, cf, ifs.Cond); isLenGuard {
+			return true
+		}
+		nFilters++
+		key := fmt.Sprintf("filter#%d", nFilters)
+		// strings.IndexByte(CONST, b[0]) == -1 / < 0, !strings.ContainsRune(CONST, ...), bytes.IndexByte
+		admitted, understood := firstByteFilter(info, ifs.Cond)
+		if !understood {
+			sc.Undecided(key, c.P.Pos(ifs.Pos()), "the look-ahead answers 'not a directive' under a condition this rule cannot relate to the keyword table: "+types.ExprString(ifs.Cond))
+			return true
+		}
+		var lost []string
+		for b, nm := range firstBytes {
+			if !strings.ContainsRune(admitted, rune(b)) {
+				lost = append(lost, nm)
+			}
+		}
+		sort.Strings(lost)
+		if len(lost) == 0 {
+			sc.Holds(key, c.P.Pos(ifs.Pos()), "first-byte filter admits the first byte of every spelled keyword")
+		} else {
+			sc.Violation(key, c.P.Pos(ifs.Pos()), "the look-ahead's first-byte filter "+strconv.Quote(admitted)+" rejects lines that start with the keyword(s) "+strings.Join(lost, ", ")+": such a line no longer ends a description and the directive is swallowed into the text")
+		}
+		return true
+	})
 	// (b) skips in the loop over the table
 	enumT := c.Named("directive", "Enumeration")
 	consts := map[types.Object]string{}
@@ -843,6 +894,50 @@ func (c *Ctx) lookAheadShape(sc *report.RuleScope, pk *pkgT, look *types.Func) {
 			sc.Violation(key, c.P.Pos(cr), "the look-ahead treats CR specially and never mentions LF")
 		}
 	}
+}
+
+// firstByteFilter recognises conditions that are true when a byte is NOT in a constant set:
+// strings.IndexByte(SET, x) == -1 (or < 0), !strings.ContainsRune(SET, rune(x)),
+// !strings.Contains(SET, string(x)); it returns SET.
+func firstByteFilter(info *types.Info, cond ast.Expr) (string, bool) {
+	cond = ast.Unparen(cond)
+	setOf := func(call *ast.CallExpr, names ...string) (string, bool) {
+		f := Callee(info, call)
+		if f == nil || f.Pkg() == nil || (f.Pkg().Path() != "strings" && f.Pkg().Path() != "bytes") || len(call.Args) != 2 {
+			return "", false
+		}
+		okName := false
+		for _, n := range names {
+			if f.Name() == n {
+				okName = true
+			}
+		}
+		if !okName {
+			return "", false
+		}
+		tv, ok := info.Types[call.Args[0]]
+		if !ok || tv.Value == nil || tv.Value.Kind() != constant.String {
+			return "", false
+		}
+		return constant.StringVal(tv.Value), true
+	}
+	if u, ok := cond.(*ast.UnaryExpr); ok && u.Op == token.NOT {
+		if call, ok := ast.Unparen(u.X).(*ast.CallExpr); ok {
+			return setOf(call, "ContainsRune", "Contains", "ContainsAny")
+		}
+		return "", false
+	}
+	if be, ok := cond.(*ast.BinaryExpr); ok {
+		if call, ok := ast.Unparen(be.X).(*ast.CallExpr); ok {
+			if tv, has := info.Types[be.Y]; has && tv.Value != nil {
+				v := tv.Value.ExactString()
+				if (be.Op == token.EQL && v == "-1") || (be.Op == token.LSS && v == "0") {
+					return setOf(call, "IndexByte", "IndexRune", "Index")
+				}
+			}
+		}
+	}
+	return "", false
 }
 
 // maxLenWhenTrue: for a condition that bounds a length from above (len(x) < K, len(x) <= K,
@@ -1463,7 +1558,10 @@ func RulePA1(c *Ctx) {
 		cf := c.CFG(cs.Pk, cs.Body)
 		bad := ""
 		for _, fa := range cf.FactsAt(cs.Call) {
-			if !pa1Allowed(info, cf, fa, notationT) {
+			if fa.Derived {
+				continue
+			}
+			if !pa1Allowed(info, cf, fa, notationT) || !pa1NilOnPrefix(info, cf, fa, cs.Call.Args[0]) {
 				bad = fmt.Sprintf("%s is %v", types.ExprString(fa.Expr), fa.Truth)
 				break
 			}
@@ -1476,7 +1574,173 @@ func RulePA1(c *Ctx) {
 	}
 	if n == 0 {
 		sc.Undecided("sites", "-", "no top-level call of the expander found")
+		return
 	}
+	// the walk over the children of a schema node is unconditional too: the expander's
+	// call on a range variable over a Children slice is reached under nothing but nil tests
+	// of that child itself
+	efd := c.P.Decl(exp)
+	if efd != nil {
+		epk := c.P.PkgOfDecl(efd)
+		einfo := epk.TypesInfo
+		k := 0
+		ast.Inspect(efd.Body, func(x ast.Node) bool {
+			rs, ok := x.(*ast.RangeStmt)
+			if !ok || rs.Value == nil {
+				return true
+			}
+			sel, ok := ast.Unparen(rs.X).(*ast.SelectorExpr)
+			if !ok || sel.Sel.Name != "Children" {
+				return true
+			}
+			vobj := einfo.ObjectOf(rs.Value.(*ast.Ident))
+			ast.Inspect(rs.Body, func(y ast.Node) bool {
+				call, ok := y.(*ast.CallExpr)
+				if !ok || Callee(einfo, call) != exp || len(call.Args) == 0 {
+					return true
+				}
+				id, ok := ast.Unparen(call.Args[0]).(*ast.Ident)
+				if !ok || einfo.ObjectOf(id) != vobj {
+					return true
+				}
+				k++
+				key := fmt.Sprintf("children:%s#%d", c.P.DeclName(efd), k)
+				body := innermostBody(efd, call)
+				cf := c.CFG(epk, body.body)
+				bad := ""
+				for _, fa := range cf.FactsAt(call) {
+					// only facts established inside the loop body concern the child
+					if fa.Derived || fa.Expr.Pos() < rs.Body.Pos() || fa.Expr.End() > rs.Body.End() {
+						continue
+					}
+					if !pa1Allowed(einfo, cf, fa, notationT) || !pa1NilOnPrefix(einfo, cf, fa, call.Args[0]) {
+						bad = fmt.Sprintf("%s is %v", types.ExprString(fa.Expr), fa.Truth)
+					}
+				}
+				if bad == "" {
+					sc.Holds(key, c.P.Pos(call.Pos()), "every child is walked, whatever it contains")
+				} else {
+					sc.Violation(key, c.P.Pos(call.Pos()), "the walk into the children of a schema node skips a child because of its content ("+bad+"): an allOf below a node the filter takes for uninteresting (an object without rules of its own) is never expanded")
+				}
+				return true
+			})
+			return true
+		})
+	}
+	// order inside the stage: the pass over the user types comes first, so that every type is
+	// expanded in its own right (with its own used-type set) before anything uses it as a base
+	var utSite *callSite
+	var others []callSite
+	for _, cs := range c.callSitesOf(exp) {
+		cs := cs
+		caller := declObj(cs)
+		if caller == nil || inner[caller] {
+			continue
+		}
+		overTypes := false
+		ast.Inspect(cs.Decl.Body, func(x ast.Node) bool {
+			if call, ok := x.(*ast.CallExpr); ok {
+				if f := Callee(cs.Pk.TypesInfo, call); f != nil && f.Name() == "Each" {
+					if rsel, ok := ast.Unparen(Recv(call)).(*ast.SelectorExpr); ok && rsel.Sel.Name == "UserTypes" {
+						overTypes = true
+					}
+				}
+			}
+			return true
+		})
+		if overTypes {
+			utSite = &cs
+		} else {
+			others = append(others, cs)
+		}
+	}
+	if utSite == nil {
+		sc.Undecided("order", "-", "the pass that expands the user types themselves was not found")
+		return
+	}
+	utFn := declObj(*utSite)
+	for _, stage := range c.callSitesOf(utFn) {
+		cf := c.CFG(stage.Pk, stage.Body)
+		info := stage.Pk.TypesInfo
+		late := ""
+		ast.Inspect(stage.Body, func(x ast.Node) bool {
+			call, ok := x.(*ast.CallExpr)
+			if !ok || call == stage.Call {
+				return true
+			}
+			g := Callee(info, call)
+			isOther := false
+			for _, o := range others {
+				if declObj(o) == g {
+					isOther = true
+				}
+			}
+			if !isOther {
+				return true
+			}
+			before := false
+			cf.Before(call, func(nd ast.Node) {
+				ast.Inspect(nd, func(y ast.Node) bool {
+					if y == ast.Node(stage.Call) {
+						before = true
+					}
+					return true
+				})
+			})
+			if !before {
+				late = g.Name() + " at " + c.P.Pos(call.Pos())
+			}
+			return true
+		})
+		key := "order:" + c.P.DeclName(stage.Decl)
+		if late == "" {
+			sc.Holds(key, c.P.Pos(stage.Call.Pos()), "the user types are expanded before every other kind of declared schema")
+		} else {
+			sc.Violation(key, c.P.Pos(stage.Call.Pos()), "another kind of declared schema is expanded ("+late+") before the pass over the user types: a base type is then expanded on first use, with the used-type set of whichever declaration got there first, so that declaration's usedUserTypes depends on the order of declarations")
+		}
+	}
+}
+
+// pa1NilOnPrefix: a nil test in a guard of the expander call may only look at the access
+// path of the expander's own argument (q, q.Schema for q.Schema.ContentJSight), not at
+// other fields of the declaration.
+func pa1NilOnPrefix(info *types.Info, cf *cfgx.Func, fa cfgx.Fact, arg ast.Expr) bool {
+	be, ok := ast.Unparen(fa.Expr).(*ast.BinaryExpr)
+	if !ok || (be.Op != token.EQL && be.Op != token.NEQ) {
+		return true
+	}
+	x := be.X
+	if isNilIdentExpr(info, x) {
+		x = be.Y
+	} else if !isNilIdentExpr(info, be.Y) {
+		return true
+	}
+	// errors and type-assertion results are not part of the declaration
+	if t := info.TypeOf(x); t != nil && isErrorLike(t) {
+		return true
+	}
+	for p := ast.Unparen(cf.Resolve(arg)); p != nil; {
+		if cf.SameResolved(p, x) {
+			return true
+		}
+		switch n := p.(type) {
+		case *ast.SelectorExpr:
+			p = ast.Unparen(cf.Resolve(n.X))
+		case *ast.StarExpr:
+			p = ast.Unparen(cf.Resolve(n.X))
+		case *ast.CallExpr:
+			if len(n.Args) == 0 {
+				if sel, ok := n.Fun.(*ast.SelectorExpr); ok {
+					p = ast.Unparen(cf.Resolve(sel.X))
+					continue
+				}
+			}
+			p = nil
+		default:
+			p = nil
+		}
+	}
+	return false
 }
 
 func pa1Allowed(info *types.Info, cf *cfgx.Func, fa cfgx.Fact, notationT *types.Named) bool {
@@ -1631,5 +1895,110 @@ func RuleQ2(c *Ctx) {
 	})
 	if n == 0 {
 		sc.Undecided("sites", "-", "no Unquote call found")
+	}
+}
+
+// ---------------------------------------------------------------- FC1
+
+// RuleFC1: a kind test that rejects something is fail-closed. In a function that returns
+// an error, a switch over a string-typed kind (a schema node's token type, a notation
+// name) in which some listed case ends in an error must not have a default that ends in
+// success: listing what is refused and accepting the rest lets through every kind the
+// author did not think of (a "reference" to an object type where only scalars are allowed).
+func RuleFC1(c *Ctx) {
+	sc := c.Run.Begin("FC1", "in error-returning functions a switch over a string-typed kind that rejects some listed case does not accept by default (allow-lists, not deny-lists)", 1)
+	defer sc.End()
+	n := 0
+	c.P.Funcs(func(pk *pkgT, fd *ast.FuncDecl) {
+		if strings.Contains(c.P.Pos(fd.Pos()), "internal/") || fd.Type.Results == nil {
+			return
+		}
+		info := pk.TypesInfo
+		res := fd.Type.Results.List
+		if !isErrorLike(info.TypeOf(res[len(res)-1].Type)) {
+			return
+		}
+		perFn := 0
+		// outcome of a statement list: "accept", "reject" or "" (falls through)
+		var outcome func(list []ast.Stmt) string
+		outcome = func(list []ast.Stmt) string {
+			for _, st := range list {
+				switch s := st.(type) {
+				case *ast.ReturnStmt:
+					if len(s.Results) == 0 {
+						return ""
+					}
+					last := s.Results[len(s.Results)-1]
+					if tv, ok := info.Types[last]; ok && tv.IsNil() {
+						return "accept"
+					}
+					if _, isCall := ast.Unparen(last).(*ast.CallExpr); isCall {
+						return "reject"
+					}
+					return ""
+				}
+			}
+			return ""
+		}
+		var visit func(list []ast.Stmt)
+		visit = func(list []ast.Stmt) {
+			for i, st := range list {
+				sw, ok := st.(*ast.SwitchStmt)
+				if ok && sw.Tag != nil {
+					if t := info.TypeOf(sw.Tag); t != nil {
+						if b, isB := t.Underlying().(*types.Basic); isB && b.Info()&types.IsString != 0 {
+							after := outcome(list[i+1:])
+							var def string
+							hasDefault, rejects := false, false
+							for _, cl := range sw.Body.List {
+								cc := cl.(*ast.CaseClause)
+								o := outcome(cc.Body)
+								if o == "" {
+									o = after
+								}
+								if cc.List == nil {
+									hasDefault, def = true, o
+								} else if o == "reject" {
+									rejects = true
+								}
+							}
+							if !hasDefault {
+								def = after
+							}
+							if rejects || def != "" {
+								n++
+								perFn++
+								key := fmt.Sprintf("%s#%d", c.P.DeclName(fd), perFn)
+								if rejects && def == "accept" {
+									sc.Violation(key, c.P.Pos(sw.Pos()), "the switch over "+types.ExprString(sw.Tag)+" rejects the listed kinds and accepts every other one: a kind that is not listed (a reference, a new token type) passes the check it was meant to fail")
+								} else {
+									sc.Holds(key, c.P.Pos(sw.Pos()), "kinds not listed are not accepted by default")
+								}
+							}
+						}
+					}
+				}
+				// nested statement lists
+				ast.Inspect(st, func(x ast.Node) bool {
+					switch b := x.(type) {
+					case *ast.FuncLit:
+						return false
+					case *ast.BlockStmt:
+						if ast.Node(b) != ast.Node(st) {
+							visit(b.List)
+							return false
+						}
+					case *ast.CaseClause:
+						visit(b.Body)
+						return false
+					}
+					return true
+				})
+			}
+		}
+		visit(fd.Body.List)
+	})
+	if n == 0 {
+		sc.Undecided("sites", "-", "no switch over a string-typed kind in an error-returning function")
 	}
 }
